@@ -73,6 +73,11 @@ type Config struct {
 	// MapOrder: "identity" (canonical sorted order), "reverse", "shuffle".
 	MapOrder string `json:"map_order,omitempty"`
 	MapSeed  uint64 `json:"map_seed,omitempty"`
+	// ChanCaps: "keep" (or empty) leaves the constant capacities of buffered
+	// channels as written; "small" replaces each capacity of 8 or more by a
+	// value in 1..4 derived from (ChanSeed, site).
+	ChanCaps string `json:"chan_caps,omitempty"`
+	ChanSeed uint64 `json:"chan_seed,omitempty"`
 	// Explicit is used when Mode == "explicit".
 	Explicit *Schedule `json:"explicit,omitempty"`
 	// MaxSteps bounds the number of scheduler decisions (0 = 2e6).
@@ -114,6 +119,7 @@ type Result struct {
 	SelectReorders int64 `json:"select_reorders"`
 	MapPermuted    int64 `json:"map_permuted"`
 	MapUnlabelled  int64 `json:"map_unlabelled"`
+	ChanCapsSmall  int64 `json:"chan_caps_small"`
 	ClockAdvances  int64 `json:"clock_advances"`
 	IdleWakes      int64 `json:"idle_wakes"`
 	Infeasible     int64 `json:"infeasible"`
@@ -234,6 +240,7 @@ type Sim struct {
 	mapUnlab     int64
 	lockCont     int64
 	probes       []probe
+	chanKnob     int64
 	endToken     int64
 }
 
@@ -631,6 +638,24 @@ func SelectOrder(site string, n int) int {
 		s.selReorders++
 	}
 	return int(p)
+}
+
+// ChanCap is the capacity to use for a buffered channel whose capacity is a
+// constant of 8 or more in the source (a tuning knob, see Config.ChanCaps).
+//
+//go:norace
+func ChanCap(site string, n int) int {
+	s := cur
+	if s == nil || s.dead || s.cfg.ChanCaps != "small" {
+		return n
+	}
+	h := hashStr(s.cfg.ChanSeed^fnvOff, site)
+	c := 1 + int(h%4)
+	if c > n {
+		c = n
+	}
+	s.chanKnob++
+	return c
 }
 
 // Probe counts a rare condition for the evidence.
@@ -1091,6 +1116,7 @@ func Run(t *testing.T, cfg Config, root func()) (res Result) {
 	res.SelectReorders = s.selReorders
 	res.MapPermuted = s.mapPermuted
 	res.MapUnlabelled = s.mapUnlab
+	res.ChanCapsSmall = s.chanKnob
 	res.LockContended = s.lockCont
 	res.Recorded.Points = s.recPoints
 	res.Recorded.Sel = s.recSel
